@@ -140,6 +140,7 @@ func c07Judge(in []byte, crc bool, identical *atomic.Int64) (string, string) {
 
 func C07(args []string) {
 	r := core.Begin("C07", "model_checking", args)
+	r.WatchProgress(watchPeriod()) // the code under test runs in this process: a call that never returns must end the check
 	if p := replayArg(args); p != "" {
 		var f struct {
 			Case c07Case `json:"case"`
